@@ -59,7 +59,7 @@ UNITS = {
                              for f in ['put', 'capturing_put', 'replace_or_create_node', 'get', 'get_', 'get_mut', 'get_mut_', 'peek', 'peek_', 'peek_mut', 'peek_mut_',
                                        'contains', 'remove', 'attach', 'detach', 'len', 'cap', 'is_empty']],
                   assumptions=SHIM_ASSUMPTIONS),
-    'K-CB': dict(engine='kani', total_for=['C15'], files=['harness_raw_cb.rs'], support_files=['harness_raw.rs', 'gen.rs'],
+    'K-CB': dict(engine='kani', files=['harness_raw_cb.rs'], support_files=['harness_raw.rs', 'gen.rs'],
                  module={'harness_raw_cb.rs': 'lru::raw::verif_hooks::harness_cb'},
                  n=dict(quick=2, thorough=3), bound='list length <= {N}, capacity <= {N}',
                  timeout=dict(quick=900, thorough=3600),
@@ -107,7 +107,7 @@ UNITS = {
                      functions=[dict(function=f, file='src/lfu/tinylfu/sketch/count_min_sketch_{std,core}.rs', line=0, props=['C11', 'C05'])
                                 for f in ['CountMinSketch::increment', 'CountMinSketch::estimate', 'CountMinSketch::reset', 'CountMinSketch::clear', 'CountMinRow::reset', 'CountMinRow::clear']],
                      assumptions=['sketch row width bounded by 8 counters in the Kani leaf harnesses (the Verus layer above is unbounded in width)']),
-    'K-SLFU': dict(engine='kani', total_for=['C20'], files=['harness_sampled.rs'], support_files=['gen.rs'],
+    'K-SLFU': dict(engine='kani', files=['harness_sampled.rs'], support_files=['gen.rs'],
                    module={'harness_sampled.rs': 'lfu::sampled::verif_hooks::harness'},
                    n=dict(quick=2, thorough=3), bound='table of <= {N} tracked keys; costs and max_cost in (-2^40, 2^40) so that no i64 sum overflows; fill_sample input <= 2 pairs',
                    timeout=dict(quick=900, thorough=1800),
@@ -148,7 +148,7 @@ UNITS = {
                        n=dict(quick=1, thorough=1), bound='each of the four lists <= 1 entry; 12 tracked object ids', timeout=dict(quick=3600, thorough=7200),
                        functions=[dict(function='AdaptiveCache::{put, replace, drop}', file='src/lru/adaptive.rs', line=0, props=['C04', 'C03'])],
                        assumptions=SHIM_ASSUMPTIONS + ['CBMC --memory-leak-check: every heap object allocated in the harness must be freed by the end']),
-    'K-ITER': dict(engine='kani', total_for=['C14'], files=['harness_raw_iter.rs'], support_files=['harness_raw.rs', 'gen.rs'],
+    'K-ITER': dict(engine='kani', files=['harness_raw_iter.rs'], support_files=['harness_raw.rs', 'gen.rs'],
                    module={'harness_raw_iter.rs': 'lru::raw::verif_hooks::harness_iter'},
                    n=dict(quick=2, thorough=3), bound='list length <= {N}+1, schedule of next/next_back of length {N}+3 (= len()+2 at full length)',
                    timeout=dict(quick=900, thorough=3600),
